@@ -147,21 +147,17 @@ def blankBlock (i : Inp) : Option (Nat × Inp) := blankBlockScan i i 0
 def identifier : Inp → Option (Bytes × Inp)
   | b :: r =>
     if isAlphaC b then
-      let (t, rest) := r.span isIdentC
-      some (b :: t, rest)
+      some (b :: r.takeWhile isIdentC, r.dropWhile isIdentC)
     else none
   | [] => none
 
 /-- `digits ::= [0-9]+` -/
 def digits (i : Inp) : Option (Bytes × Inp) :=
-  let (d, rest) := i.span isDigitC
-  if d.isEmpty then none else some (d, rest)
+  let d := i.takeWhile isDigitC
+  if d.isEmpty then none else some (d, i.dropWhile isDigitC)
 
-/-- `NumberLiteral ::= "-"? digits ("." digits)?` (value as written) -/
-def numberLiteral (i : Inp) : Option (Bytes × Inp) :=
-  let (sign, i1) : Bytes × Inp := match i with
-    | 45 :: r => ([45], r)
-    | _ => ([], i)
+/-- `digits ("." digits)?` after an optional sign (`sign` = the bytes of the sign already read) -/
+def numberAfterSign (sign : Bytes) (i1 : Inp) : Option (Bytes × Inp) :=
   match digits i1 with
   | none => none
   | some (d, i2) =>
@@ -171,6 +167,11 @@ def numberLiteral (i : Inp) : Option (Bytes × Inp) :=
        | some (f, i3) => some (sign ++ d ++ 46 :: f, i3)
        | none => some (sign ++ d, i2))
     | _ => some (sign ++ d, i2)
+
+/-- `NumberLiteral ::= "-"? digits ("." digits)?` (value as written) -/
+def numberLiteral : Inp → Option (Bytes × Inp)
+  | 45 :: r => numberAfterSign [45] r
+  | i => numberAfterSign [] i
 
 /-- the next `n` bytes are hex digits -/
 def hexRun (n : Nat) (i : Inp) : Bool := (i.take n).length == n && (i.take n).all isHexC
@@ -273,10 +274,10 @@ def commentLine (i : Inp) : Option ((Nat × Bytes) × Inp) :=
 
 /-- `junk_line ::= /[^\n]*/ ("\n" | EOF)` -/
 def junkLine (i : Inp) : Bytes × Inp :=
-  let (l, r) := i.span (· != 10)
-  match r with
+  let l := i.takeWhile (· != 10)
+  match i.dropWhile (· != 10) with
   | 10 :: r' => (l ++ [10], r')
-  | _ => (l, r)
+  | r => (l, r)
 
 /-- `(junk_line - "#" - "-" - [a-zA-Z])*` -/
 def junkLines : Nat → Inp → Bytes × Inp
